@@ -36,11 +36,13 @@ Three waves, so that detection is measured on changes the checks were **not** tu
   "the same schedule gives another result the second time" into a finding instead of a replay
   divergence), 1 missed (container `type`/`as` + serde `rename`; C10 slots added).
 
-With the final framework every re-runnable change is caught, 60 of 65 by the check of the
-property it was written against; the other five are caught by a neighbouring check because the
-change, as ported or as it manifests, does not actually violate the target property's own clause
-(e.g. C13-m1 after the port is deterministic but unsorted - a C05 matter; C13-w3m2/C13-m2 are
-history dependence on entry point / stale files - C06's clause). Three wave-1 changes modify the
+With the final framework (full re-run of all 65 re-runnable changes, `.build/partrial_final.log`)
+every change is caught and no check ended in a machinery error; 63 of 65 are caught by the check
+of the property they were written against. The two others are caught by neighbouring checks
+because the change, as it manifests, does not violate the target property's own clause: C13-m1
+after its port to the rewritten merge is deterministic but leaves import names unsorted (a C05
+matter); C13-w3m2 makes the result depend on the entry point used (C06's clause; C13 enumerates
+orders and schedules of `export_all`). Three wave-1 changes modify the
 textual merge that fix 0e0de93 replaced and cannot be applied to later trees; their verdicts are
 from the tree they were written for (C15-m2 was *not* caught there: its effect was inside the
 population the then-open finding F03 absorbed - the reason F02-F04 were repaired rather than
